@@ -16,6 +16,7 @@
 #include <cstring>
 #include <ctime>
 #include <unistd.h>
+#include <fcntl.h>
 #include <signal.h>
 #include <sys/mman.h>
 #include <sys/wait.h>
@@ -97,11 +98,13 @@ struct Sink {
   void open(const std::string& p) { path = p; if (!p.empty()) { FILE* f = fopen(p.c_str(), "a"); if (f) fclose(f); } }
   void line(const std::string& l) const {
     if (path.empty()) { fputs((l + "\n").c_str(), stdout); fflush(stdout); return; }
-    FILE* f = fopen(path.c_str(), "a");
-    if (!f) { perror("sink"); _exit(3); }
+    // one write() on an O_APPEND descriptor: records of concurrent workers never interleave
+    int fd = ::open(path.c_str(), O_WRONLY | O_APPEND | O_CREAT, 0644);
+    if (fd < 0) { perror("sink"); _exit(3); }
     std::string s = l + "\n";
-    fwrite(s.data(), 1, s.size(), f);
-    fclose(f);
+    size_t off = 0;
+    while (off < s.size()) { ssize_t w = ::write(fd, s.data() + off, s.size() - off); if (w <= 0) { perror("sink write"); _exit(3); } off += (size_t)w; }
+    ::close(fd);
   }
 };
 
